@@ -296,3 +296,57 @@ def u_to_exact(ctx):
             return g
         obs += exits(eng, outs, ensure=ensure, raises=raises, replay="C05.to_exact")
     return obs
+
+
+# ---------------------------------------------------------------------------------------------- placement (terminal model)
+def pad_unit(fill):
+    @unit("C05", f"padding:Padding.pad[fill={fill!r}]")
+    def u(ctx, fill=fill):
+        eng = ctx.engine(f"C05/Padding.pad[fill={fill!r}]", "C05")
+        eng.default_replay = "C05.pad"
+        world(ctx, eng)
+        st = State()
+        l, t, r, b = z3.Ints("left top right bottom")
+        w, h = z3.Ints("rs_w rs_h")
+        r0, TW, TH, B0 = z3.Ints("r0 TW TH bottom0")
+        PW, PH = l + w + r, t + h + b
+        st.pc += [l >= 0, t >= 0, r >= 0, b >= 0, w >= 1, h >= 1, TW >= PW, TH >= 1, r0 >= 0, B0 >= r0, B0 - TH + 1 <= r0]
+        self_ = st.new("ExactPadding", {"left": l, "top": t, "right": r, "bottom": b, "fill": fill})
+        eng.methods[("ExactPadding", "_get_exact_dimensions_")] = dims_contract("exact", (l, t, r, b))
+        blk = Block(z3.Int("blk"), w, h)
+        render = TS([blk])
+        st.env.update(self=self_, render=render, render_size=size_rec(w, h))
+        outs = run_function(eng, ctx.fn(PAD, "Padding.pad"), st)
+
+        def line_pred(a, final):
+            i = a["line_idx"]
+            is_blk = z3.And(i >= t, i < t + h)
+            margin = z3.If(is_blk, l + r, PW)
+            cells = [a["written"] == margin, a["skipped"] == 0] if fill else [a["skipped"] == margin, a["written"] == 0]
+            return z3.And(z3.Not(a["irregular"]), a["line_w"] == PW, *cells,
+                          z3.If(is_blk, z3.And(a["blk_col"] == l, a["blk_line"] == i - t, a["blk_id"] == z3.Int("blk")), a["blk_col"] == -1))
+        for kind, val, s in outs:
+            if kind != "return":
+                eng.oblige(f"no-exception:{getattr(val, 'cls', kind)}", s, False, kind="raise")
+                continue
+            none = z3.And(l == 0, t == 0, r == 0, b == 0)
+            if val is render:
+                eng.oblige("render-returned-as-is-only-without-padding", s, none, kind="post", replay="C05.pad")
+                continue
+            eng.oblige("padded-output-is-new-only-with-padding", s, z3.Not(none), kind="post", replay="C05.pad")
+            s2 = s.fork()
+            s2.ghost["vt"] = vt_new(r0, z3.IntVal(0), B0, TW, TH)
+            vt = VT(eng, s2, tag="placement", line_pred=line_pred)
+            vt.feed(val).finish()
+            g = vt.g
+            eng.oblige("box:PH-lines,no-trailing-newline,cursor-after-last-cell", s2,
+                       And(to_z3(g["nl"]) == PH - 1, Not(g["last_nl"]), to_z3(g["row"]) == r0 + PH - 1,
+                           # just past the last column, or at the right margin when the box reaches it
+                           Or(to_z3(g["col"]) == PW, And(PW == TW, to_z3(g["col"]) == TW - 1)),
+                           to_z3(g["line_idx"]) == PH - 1, z3.BoolVal(g["parser"] == "ground")), kind="post", replay="C05.pad")
+        return eng.obligations
+    return u
+
+
+for _f in (" ", "x", ""):
+    pad_unit(_f)
